@@ -70,7 +70,17 @@ SparseTs(j) == << Pow2(8), Pow2(16), Pow2(24), BAdd(Pow2(24), <<1>>), BAdd(Pow2(
 SparseT3(j, pt, t, r, x1) == Forge4("sparse-t", pt, BSubMod(r, x1, NN), r, BSubMod(t, r, NN), VerifyRS(pt, BSubMod(r, x1, NN), r, BSubMod(t, r, NN)))
 SparseT2(j, d, k, t) == SparseT3(j, MulN(d, G), t, BSubMod(BMulMod(t, BAddMod(<<1>>, d, NN), NN), k, NN), BMod(MulN(k, G)[1], NN))
 SparseT(j) == IF j > 2 THEN <<>> ELSE [q \in 1..Len(SparseTs(j)) |-> SparseT2(j, Dof(j), Kof(j), SparseTs(j)[q])]
+\* VALID digest-level signatures at the ends of the component ranges: s = n-1, s = 1, r = n-1, r = 1 (must be accepted).
+\*   s = sv:  r = (k - sv (1 + d)) d^-1, e = r - x1;      r = rv:  e = rv - x1, s = (1+d)^-1 (k - rv d)
+EdgeS(j, d, k, sv, x1) == Forge4("edge-valid", MulN(d, G), BSubMod(BMulMod(BSubMod(k, BMulMod(sv, BAddMod(<<1>>, d, NN), NN), NN), InvN(d), NN), x1, NN),
+                                 BMulMod(BSubMod(k, BMulMod(sv, BAddMod(<<1>>, d, NN), NN), NN), InvN(d), NN), sv,
+                                 VerifyRS(MulN(d, G), BSubMod(BMulMod(BSubMod(k, BMulMod(sv, BAddMod(<<1>>, d, NN), NN), NN), InvN(d), NN), x1, NN),
+                                          BMulMod(BSubMod(k, BMulMod(sv, BAddMod(<<1>>, d, NN), NN), NN), InvN(d), NN), sv))
+EdgeR(j, d, k, rv, x1) == Forge4("edge-valid", MulN(d, G), BSubMod(rv, x1, NN), rv, SignS(d, k, rv), VerifyRS(MulN(d, G), BSubMod(rv, x1, NN), rv, SignS(d, k, rv)))
+EdgeCases(j) == IF j > 2 THEN <<>> ELSE
+   << EdgeS(j, Dof(j), Kof(j), BSub(NN, <<1>>), BMod(MulN(Kof(j), G)[1], NN)), EdgeS(j, Dof(j), Kof(j), <<1>>, BMod(MulN(Kof(j), G)[1], NN)),
+      EdgeR(j, Dof(j), Kof(j), BSub(NN, <<1>>), BMod(MulN(Kof(j), G)[1], NN)), EdgeR(j, Dof(j), Kof(j), <<1>>, BMod(MulN(Kof(j), G)[1], NN)) >>
 Init == pidx = 0 /\ pout = <<>>
-Next == pidx < NK /\ pidx' = pidx + 1 /\ pout' = <<Honest(pidx + 1)>> \o SmallS(pidx + 1) \o SmallR(pidx + 1) \o TZero(pidx + 1) \o InfCase(pidx + 1) \o RetryCases(pidx + 1) \o NearMiss(pidx + 1) \o ZeroCases(pidx + 1) \o SparseT(pidx + 1)
+Next == pidx < NK /\ pidx' = pidx + 1 /\ pout' = <<Honest(pidx + 1)>> \o SmallS(pidx + 1) \o SmallR(pidx + 1) \o TZero(pidx + 1) \o InfCase(pidx + 1) \o RetryCases(pidx + 1) \o NearMiss(pidx + 1) \o ZeroCases(pidx + 1) \o SparseT(pidx + 1) \o EdgeCases(pidx + 1)
 Emit == \A j \in 1..Len(pout) : PrintT(<<"PLAN", ToJson(pout[j])>>)
 =============================================================================
